@@ -121,6 +121,7 @@ def run(repo='/repo', tier='quick'):
                           '%s is given its decoder context as a parameter but reads decoder_cfgs[%s]: the options of another context (the path decoder\'s) are applied to this one' % (n_, P.K(x_['idx'])), x_['loc'])
     res.floor('C15.f', 'decoder_cfgs subscripts in functions that are given a context', nctx, 30)
     c15g(db, res)
+    c15h(db, res)
     return res
 
 
@@ -145,3 +146,23 @@ def c15g(db, res):
         res.check(ok, 'C15.g', '%s:writes:decode_url_encoding' % name, 'the constructor / setter',
                   '%s switches the decoding of a urlencoded parser on or off (%s): the skipped pass is also where NUL bytes terminate a field and invalid encodings are handled, so the reported names and values no longer follow the configured decoding for some inputs' % (name, S(x)[:60]), x['loc'])
     res.floor('C15.g', 'writers of the decode switch', n, 1)
+
+
+def c15h(db, res):
+    """Whether a request body is parsed as urlencoded parameters is decided by its Content-Type alone ("for every ... urlencoded
+    body"): not by the method, not by what else the library does with the body (PUT file hooks)."""
+    res.rule('C15.h', 'the urlencoded body parser is set up for every urlencoded body: in htp_ch_urlencoded_callback_request_headers no branch reads anything of the connection parser or the method - only the Content-Type header and allocation results decide')
+    f = db.get('htp_ch_urlencoded_callback_request_headers')
+    n = 0
+    bad = None
+    for b in sorted(f.blocks):
+        c = f.cond_of(b)
+        if not c:
+            continue
+        n += 1
+        for m in nodes(c[0], lambda y: y.get('k') == 'member'):
+            if m.get('rec') == 'htp_connp_t' or m.get('field') in ('request_method_number', 'request_method', 'put_file'):
+                bad = (c[0], m.get('field'))
+    res.check(bad is None, 'C15.h', 'htp_ch_urlencoded_callback_request_headers:content-type-only', 'only the content type decides',
+              'htp_ch_urlencoded_callback_request_headers declines depending on %s: a urlencoded body of such a request yields no body parameters at all' % (bad[1] if bad else ''), (bad[0] if bad else {}).get('loc', f.loc))
+    res.floor('C15.h', 'branches in the urlencoded request-headers callback', n, 2)
